@@ -16,21 +16,22 @@ static void feed(const char *s, size_t len, struct res *r, uint64_t id, int do_c
     /* the string lives in an exactly sized heap block so that ASan sees any read past the terminator */
     char *in = malloc(len + 1), *keep = malloc(len + 1); memcpy(in, s, len); in[len] = 0; memcpy(keep, in, len + 1);
     char rep[2700], key[100];
-    { static char hx[2 * 1300 + 4]; size_t hl = len < 1290 ? len : 1290; hex(s, hl, hx); snprintf(rep, sizeof rep, "case %zu %s", len, hx); }
+    { static char hx[2 * 1300 + 4]; size_t hl = len < 1290 ? len : 1290; hex(s, hl, hx); snprintf(rep, sizeof rep, "case %llu %s", (unsigned long long)id, hx); }
     extern char *G_cur; if (G_cur) { strncpy(G_cur, rep, 1999); G_cur[1999] = 0; }
     alarm(20);
     r->cases++;
+    unsigned coin = (id & 1) ? ((unsigned)((id * 2654435761u) >> 7) & 2047) : 0;     /* odd cases get their own coin value, even ones coin 0 (so that valid phrases reach the later stages) */
     for (int k = -1; k < 4; k++) {
         polyseed_data *d = NULL; const polyseed_lang *lo = NULL; int li = k < 0 ? -1 : EXPL[k];
         env_clear_log();
-        int st = k < 0 ? polyseed_decode(in, 0, &lo, &d) : polyseed_decode_explicit(in, 0, polyseed_get_lang(li), &d); r->calls++;
+        int st = k < 0 ? polyseed_decode(in, (polyseed_coin)coin, &lo, &d) : polyseed_decode_explicit(in, (polyseed_coin)coin, polyseed_get_lang(li), &d); r->calls++;
         if (st == POLYSEED_OK) polyseed_free(d);
         r->digest ^= mix64(id * 8 + (uint64_t)(k + 1), (uint64_t)st);
         if (st < 0 || st > 7 || st == POLYSEED_ERR_FORMAT) { snprintf(key, sizeof key, "c14:status-range:%d", st); res_viol(r, key, rep, "decoder returned undocumented status %d", st); goto out; }
         r->cls[st]++;
         if (memcmp(in, keep, len + 1)) { res_viol(r, "c14:input-modified", rep, "decoder modified its input"); goto out; }
         if (ledger_live() != 1 || E.err_foreign_free || E.err_free_null) { res_viol(r, "c14:ledger", rep, "after the call: %d blocks live besides the harness seed, foreign frees %d", ledger_live() - 1, E.err_foreign_free); goto out; }
-        int want = ref_decode(in, 0, li, 7, 0, CAP, NULL, NULL);
+        int want = ref_decode(in, coin, li, 7, 0, CAP, NULL, NULL);
         if (st != want) { snprintf(key, sizeof key, "c14:status-model:%d->%d", want, st); res_viol(r, key, rep, "%s returned %d, reference decoder %d", k < 0 ? "decode" : "decode_explicit", st, want); goto out; }
     }
     if (do_crypt) {
@@ -111,10 +112,10 @@ int main(int argc, char **argv) {
     for (int li = 0; li < R_NLANG; li++) for (int w = 0; w < 3; w++) { char ph[2048]; ref_phrase(&base, li, 0, ph, 2); int sp = 0; size_t i; for (i = 0; ph[i]; i++) if (ph[i] == ' ' && ++sp == 14 + w) break; ph[i] = 0; strcpy(PRE[li][w], ph); }
     if (a < argc && !strcmp(argv[a], "case")) {
         static char s[1400]; int n = unhexn(argv[a + 2], (uint8_t *)s, sizeof s - 1); if (n < 0) n = 0;
-        feed(s, (size_t)n, r, 0, 1);
+        feed(s, (size_t)n, r, strtoull(argv[a + 1], NULL, 10), 1);
         for (int i = 0; i < r->nviol; i++) printf("REPRODUCED %s: %s\n", r->v[i].key, r->v[i].msg); return r->nviol ? 1 : 0;
     }
-    LMAX = G_thorough ? 6 : 5; LB = G_thorough ? 5 : 4;
+    LMAX = G_thorough ? 7 : 5; LB = G_thorough ? 5 : 4;
     if (a + 1 < argc && !strcmp(argv[a], "--lmax")) { LMAX = atoi(argv[a + 1]); LB = LMAX - 1; }
     long na = 0, c = 1; for (int l = 0; l <= LMAX; l++) { na += c; c *= 9; }
     long nb = 0; c = 1; for (int l = 0; l <= LB; l++) { nb += c; c *= 9; }
